@@ -217,6 +217,16 @@ for cls, mod in (('Socket', 'socket'), ('AsyncSocket', 'async_socket')):
     c.ensures('silent-if-closing', 'implies(old(self.closing) or old(self.closed), '
               'self.last_ping is None and self.queue.accepted == old(self.queue.accepted) and '
               'events == old(events) and hresults == old(hresults))')
+    # Guarantee side of the heartbeat's interference argument (DESIGN 9.2, concurrency): the peer's
+    # PONG can be processed - and re-arm the heartbeat through schedule_ping - as soon as the PING is
+    # in the queue, so the deadline must already be armed when the PING is handed to send(); a stamp
+    # written after that point could overwrite the state left by the answer (seed C07-7).
+    # Threaded socket only: under asyncio nothing can run between the unbounded queue's put and the
+    # next statement, so the order is immaterial there and no obligation is generated.
+    if cls == 'Socket':
+        c.check_before('self.send(packet.Packet(packet.PING))',
+                       'deadline-armed-before-the-ping-is-visible', 'self.last_ping == now',
+                       props=['C07'])
     c.modifies('self.last_ping', *SOCK_MOD)
 
 # ------------------------------------------------------------------------------ _trigger_event
